@@ -9,15 +9,15 @@ def hooks_commits():
 
 CLAIMED = {
  "C01": ("exploration", "serve-sim+wire-sim", "4.1", "seeded deterministic simulation of serve() over a simulated entity/consumer/clock; announced length vs delivered bytes per run; plus the real hyper HTTP/1 connection over a simulated socket (short writes, back-pressure, pipelining): Content-Length and framing as parsed from the wire",
-         "Seeded search over (clock, entity incl. lengths up to 2^64-1, request, chunking/Pending plan, consumer policy); every run compares Content-Length and the exact size hint with the bytes actually delivered, frame by frame. Sampling, not proof.",
+         "Seeded search over (clock, entity incl. lengths up to 2^64-1, request, chunking/Pending plan incl. runs of consecutive empty chunks of dictionary length anywhere in the stream, consumer policy); every run compares Content-Length and the exact size hint with the bytes actually delivered, frame by frame. Sampling, not proof.",
          "Trusts the simulator's consumer and entity stubs; entity data is virtual (offset-identified), so lengths near 2^64 are really drained."),
  "C02": ("exploration", "serve-sim+file-sim+miri-sim+wire-sim", "4.2", "seeded deterministic simulation; body identity by entity offsets against the response's own headers; entity read log; sequences over the crate's own file entity; concurrent serve() on one shared file entity under Miri's seeded scheduler; body bytes inside the HTTP framing on the wire behind real hyper",
-         "Every 200/206 body is compared, by entity offset, with exactly the bytes its status and Content-Range name, under adversarial chunkings; the entity's get_range log must match.",
+         "Every 200/206 body is compared, by entity offset, with exactly the bytes its status and Content-Range name, under adversarial chunkings; the entity's get_range log must match. One run in six lets entity streams fail with an Err, up to three times per response (also on a stream opened again after a failure): a body that still ends cleanly is judged in full.",
          "Identity is by offset for virtual stretches and by value for literal bytes."),
  "C06": ("exploration", "serve-sim+wire-sim", "4.3", "seeded deterministic simulation; independent tolerant multipart/byteranges parser over delivered frames, and over the de-framed wire bytes behind real hyper",
-         "Multi-range workloads over all decimal widths and entity header sets (values also mined from the crate's own string literals, so that data collides with delimiters and header syntax); an independent parser requires parts = the request's satisfiable ranges in order, exact payloads, entity headers iff no If-Range, close delimiter, exact Content-Length. One run in six lets an entity stream fail with an Err: such a body must not end cleanly short of its Content-Length.",
+         "Multi-range workloads over all decimal widths and entity header sets (values also mined from the crate's own string literals, so that data collides with delimiters and header syntax); an independent parser requires parts = the request's satisfiable ranges in order, exact payloads, entity headers iff no If-Range, close delimiter, exact Content-Length. One run in six lets entity streams fail with an Err (up to three times per response): such a body must not end cleanly short of its Content-Length.",
          "Requests containing a spec RFC 7233 and the implementation read differently (suffix >= length, last < first) are checked for consistency only."),
- "C07": ("fault_enumeration", "serve-sim+wire-sim", "4.4", "fault injection on the entity stream seam (early end, error, extra byte/chunk, empty chunks, Pending) at sampled positions; seeded; the same faults behind the real hyper connection: a truncated response must not look complete on the wire",
+ "C07": ("fault_enumeration", "serve-sim+wire-sim", "4.4", "fault injection on the entity stream seam (early end, error, extra byte/chunk, empty chunks singly and in runs of dictionary length, Pending) at sampled positions; seeded; the same faults behind the real hyper connection: a truncated response must not look complete on the wire",
          "One stream fault per run (sometimes a compensating pair) across response shapes, fault kinds, parts, byte positions and chunk indices, on entity streams half of which give their exhaustion away through Stream::size_hint; the evidence lists grid cells hit. Short/failed streams must surface an error before any clean end; long streams never pass on more than announced.",
          "Cells are sampled by seed, not enumerated; the grid reached is reported."),
  "C08": ("exploration", "chunk-sim+thread-sim+miri-sim+wire-sim", "4.5", "seeded operation histories over the real BodyWriter/Body pair checked against an accepted-byte-log reference model; the same oracle with the producer on its own thread (baton scheduler; Miri's seeded scheduler); and behind the real hyper connection over a simulated socket, judged on the de-framed wire bytes",
@@ -27,10 +27,10 @@ CLAIMED = {
          "Levels 1..9, chunk sizes from 1 byte, four payload kinds; after every successful flush the frames obtainable so far must inflate to every accepted byte, and the final body must be exactly one gzip member (CRC, ISIZE, no trailing bytes).",
          "One open known finding (F6, dependency flate2/miniz_oxide withholds bytes on flush) is identified narrowly (the chunk writer handed over every byte it was given - hook H4 - AND at least 30 000 bytes were written since the stream was last complete, which flate2's 32 KiB buffer needs to be full) and reported as KNOWN-FINDING; any other shortfall is a violation."),
  "C10": ("exploration", "thread-sim+miri-sim", "4.7", "real producer and consumer threads under a seeded baton scheduler (random / sticky / PCT) at lock-acquire, lock-release and wake granularity; deadlock = lost wake-up; plus the same pair free-running inside the Miri interpreter, whose seeded scheduler pre-empts at basic-block granularity (one Miri seed = one replayable interleaving)",
-         "Producer programs (write/flush/wait-until-delivered/abort/drop) against a consumer that parks on Pending until the waker of its latest poll fires, with spurious polls and fresh wakers. Oracles: no deadlock, no Pending once the writer is gone, everything written arrives before a clean end, abort never ends cleanly.",
+         "Producer programs (write/flush/wait-until-delivered/abort/drop) against a consumer that parks on Pending until the waker of its latest poll fires, with spurious polls and fresh wakers; one run in sixteen starts with a backlog of K flushed pieces nobody has read (K from the source dictionary, up to 1100). Oracles: no deadlock, no Pending once the writer is gone, everything written arrives before a clean end, abort never ends cleanly.",
          "The baton scheduler switches only at lock/wake points; races between plain or atomic accesses outside the mutex are reached by the Miri part (fewer runs, finer grain). Schedules are sampled, not enumerated."),
  "C11": ("fault_enumeration", "chunk-sim+thread-sim+miri-sim+wire-sim", "4.8", "abort and body-drop (alone or both in one run) injected at drawn positions of operation histories, at every scheduling point in thread-sim, and racing freely under Miri's seeded pre-emptive scheduler; behind real hyper: abort must leave an incomplete message on the wire, and a client disconnect injected as socket write errors at a drawn byte must reach the writer; per-thread heap counter for the release clause",
-         "Faults = abort / body drop before any data, mid-chunk, after a flush, after partial consumption, raw and gzip. Abort: next terminal event is an error, never end-of-stream before it, delivered bytes a prefix, later writes/flushes fail. Body drop: flushes with data and chunk-completing writes fail, accepted-without-error bytes stay below one chunk, queued memory is released.",
+         "Faults = abort / body drop before any data, mid-chunk, after a flush, after partial consumption, behind a backlog of up to 1100 flushed pieces (thread-sim), raw and gzip. Abort: next terminal event is an error, never end-of-stream before it, delivered bytes a prefix, later writes/flushes fail. Body drop: flushes with data and chunk-completing writes fail, accepted-without-error bytes stay below one chunk, queued memory is released.",
          "Weaker reading where the text leaves room: a flush with nothing to hand over may return Ok after the body is gone."),
  "C17": ("exploration", "chunk-sim+wire-sim", "4.13", "seeded configurations of streaming_body (Accept-Encoding x level x method x request representation); simulated client decodes according to the response header",
          "Vary always present; Content-Encoding: gzip iff should_gzip(request) && level > 0 (Accept-Encoding values from a table and generated: 1-4 codings with optional qualities in any order; builder calls in any interleaving); the client picks its decoder from the header and must recover exactly the written bytes; HEAD gets no writer; an earlier response on the same thread (own history, possibly ending in a client disconnect or abort, possibly the same configuration) precedes half of the runs.",
@@ -42,7 +42,7 @@ CLAIMED = {
          "By-product invariant of every serve-sim run plus a hostile-request workload (bit flips, truncations, hostile numbers, duplicated header lines, any method, extreme entities).",
          "Input dimension only as wide as the generator; a coverage-guided fuzzer would explore it further."),
  "C14": ("exploration", "serve-sim", "4.11", "two-request histories under a simulated clock with forward/backward jumps; served validators echoed back",
-         "First response's validators are echoed in a second request after a clock move (same instant, next second, hours, backwards, before the mtime); header clauses re-checked at both clock values.",
+         "First response's validators are echoed in a second request after a clock move (same instant, next second, hours, backwards, before the mtime); requests with no, one or many ranges (counts also from the source dictionary, up to 400); header clauses re-checked at both clock values.",
          "Date echoes asserted only when mtime <= clock at the first request."),
  "C15": ("exploration", "serve-sim+chunk-sim+wire-sim", "4.12", "paired GET/HEAD exchanges against the same simulated world; entity read-counter seam; GET and HEAD twins on one keep-alive connection of the real hyper server (also pipelined)",
          "Every generated request is replayed as HEAD with the clock advanced; status and all non-clock headers must be equal, body empty with exact hint 0, zero get_range calls.",
